@@ -27,6 +27,7 @@ import (
 	"sort"
 	"strconv"
 	"sync"
+	"sync/atomic"
 	"time"
 
 	"gcverif/internal/hx"
@@ -355,7 +356,7 @@ func (r *run) execute() {
 		}
 		waited <- werr
 	}()
-	timer := time.NewTimer(mwaitWatchdog)
+	timer := time.NewTimer(mwaitTimeout())
 	defer timer.Stop()
 	select {
 	case werr := <-waited:
@@ -365,6 +366,7 @@ func (r *run) execute() {
 			r.rec.emit("mwait ok")
 		}
 	case <-timer.C:
+		atomic.AddInt32(&hangsSeen, 1)
 		r.rec.emit("mwait hang")
 		return // the deferred releaseAll frees whatever still sits at a gate
 	}
@@ -401,6 +403,19 @@ func (r *run) execute() {
 	} else {
 		r.rec.emit("root ok")
 	}
+}
+
+// hangsSeen counts the cases of this worker process whose TasksManager.Wait did not return.  The first
+// one is waited for generously; once a worker has seen a hang (the property is already violated on that
+// case) later cases get a short watchdog, so that a tree on which many cases hang is reported in bounded
+// time.  On a tree where Wait always returns nothing changes.
+var hangsSeen int32
+
+func mwaitTimeout() time.Duration {
+	if atomic.LoadInt32(&hangsSeen) > 0 {
+		return 3 * time.Second
+	}
+	return mwaitWatchdog
 }
 
 // driveCase prints the header (unless the caller does that itself), the events and `end` of
